@@ -44,7 +44,7 @@ Variable ct : ctable.
 Hypothesis Hwf : wf_ct ct = true.
 
 Lemma wf_lat_ok : wf_lat ct = true.
-Proof. assert (W := Hwf). unfold wf_ct in W. do 5 (apply andb_prop in W; destruct W as [W ?]). exact W. Qed.
+Proof. assert (W := Hwf). unfold wf_ct in W. do 5 (apply andb_prop in W; destruct W as [W ?]). apply andb_prop in W. tauto. Qed.
 
 Lemma mro_trans : forall c d e, In d (c_mro (cls_of ct c)) -> In e (c_mro (cls_of ct d)) -> In e (c_mro (cls_of ct c)).
 Proof.
